@@ -11,7 +11,7 @@ open Rivia Rivia.Str Rivia.Memfs Rivia.Spec Rivia.Spec.TreeFs Rivia.Memfs.M
 
 /-- every entry waiting in the iterator stack / the deferred stack satisfies `Q` -/
 def ItersOk (Q : Entry → Prop) (st : ISt) : Prop :=
-  (∀ it ∈ st.iters, ∀ x ∈ it.items, Q x) ∧ (∀ d ∈ st.deferred, Q d)
+  (∀ it ∈ st.iters, ∀ x ∈ it.items, Q x) ∧ (∀ d ∈ st.deferred, Q d.2)
 
 /-- the `descend` step of `process` when there is no `pre_op` -/
 def descendOf {σ} (snap : Snap) (o : Opts) (st : ISt) (e : Entry) (w : σ) :
@@ -61,7 +61,7 @@ theorem process_eq_descendOf {σ} (snap : Snap) (o : Opts) (st : ISt) (e : Entry
       | (none, st', w') =>
         if st.iters.length < o.minDepth then (none, st', w')
         else if (o.files ∧ !e.file) ∨ (!o.files ∧ o.dirs ∧ !e.dir) then (none, st', w')
-        else if e.dir ∧ o.contentsFirst then (none, { st' with deferred := e :: st'.deferred }, w')
+        else if e.dir ∧ o.contentsFirst then (none, { st' with deferred := (st.iters.length, e) :: st'.deferred }, w')
         else (some (.ok e), st', w') := by
   unfold process descendOf
   rfl
@@ -115,7 +115,7 @@ theorem nextLoop_noPre_spec {σ} (Q : Entry → Prop) (snap : Snap) (o : Opts)
         (alt.2.2 = w ∧ (∀ y, alt.1 = some (.ok y) → Q y) ∧ ItersOk Q alt.2.1) →
         let r := (if c then
             match st.deferred with
-            | d :: ds => (some (.ok d), { st with deferred := ds }, w)
+            | d :: ds => (some (.ok d.2), { st with deferred := ds }, w)
             | [] => (none, st, w)
           else alt)
         r.2.2 = w ∧ (∀ y, r.1 = some (.ok y) → Q y) ∧ ItersOk Q r.2.1 := by
